@@ -434,7 +434,7 @@ def main():
 
     ck.cov['evaluations'] = len(cases)
     ck.cov['distinct_nontrivial'] = len(nontrivial)
-    ck.cov['exhaustive'] = 'every cell of bases 16/32/64 to depth 3/2/2 (decode; re-encoded centre and box for in-range cells; ' \
+    ck.cov['exhaustive_parts'] = 'every cell of bases 16/32/64 to depth 3/2/2 (decode; re-encoded centre and box for in-range cells; ' \
                            f'children to depth {kids_depth}); strings of depth <= 2 also decoded under the other two bases'
     for i in (0, 40, 5000, len(cases) - 400, len(cases) - 30):
         ck.sample(cases[max(0, min(i, len(cases) - 1))])
